@@ -27,7 +27,7 @@ RULE = ('well-formed images of ten formats built from layouts with the declared 
         'virtual_size sampled after every chunk. Also streams without the size structure (truncated before it, VMDK '
         'text descriptors, non-primary ISO descriptors). non-trivial = declared size != 0 or a no-structure stream; '
         'distinct by (stream digest, schedule digest)')
-REQUIRED_CLAUSES = ['vhdx-metadata-region-beyond-4GiB', 'under-warnings-as-errors', 'accessor-results-owned-by-caller', 'size-under-carrier-and-constructor-options', 'final-size', 'prefix-before-lo-is-0', 'prefix-after-hi-is-declared', 'prefix-between-0-or-declared',
+REQUIRED_CLAUSES = ['under-debug-logging', 'vhdx-metadata-region-beyond-4GiB', 'under-warnings-as-errors', 'accessor-results-owned-by-caller', 'size-under-carrier-and-constructor-options', 'final-size', 'prefix-before-lo-is-0', 'prefix-after-hi-is-declared', 'prefix-between-0-or-declared',
                     'no-structure-stays-0', 'wrapper-final-size']
 ASSUMPTIONS = ['the generator writes layouts from the public format descriptions (no qemu-img available to cross-check)']
 INTERPRETER_FLAGS = [[], ['-O'], ['-X', 'dev'], ['-bb']]
